@@ -24,6 +24,7 @@ KINDS = {
     "match-only": ("@@\nvar x expression\n@@\n import {TS}\n\n-{t}.F(x)\n+{t}.G(x)\n", ["context"]),
     "metavar-replace": ("@@\nvar x expression\nvar n identifier\n@@\n-import n \"{T}\"\n+import n \"{N}\"\n\n-n.F(x)\n+n.F2(x)\n", ["minus-mv"]),
     "metavar-match-add": ("@@\nvar x expression\nvar n identifier\n@@\n import n \"{T}\"\n+import \"{N}\"\n\n-n.F(x)\n+{n}.F(n.Conv(x))\n", ["context-mv"]),
+    "metavar-unalias": ("@@\nvar x expression\nvar n identifier\n@@\n-import n \"{T}\"\n+import \"{T}\"\n\n-n.F(x)\n+{r}.F(x)\n", ["minus-mv"]),
     "same-name-takeover": ("@@\nvar x expression\n@@\n-import {TS}\n+import {t} \"{N}\"\n\n-{t}.F(x)\n+{t}.F(x, 1)\n", ["minus"]),
 }
 
@@ -44,13 +45,13 @@ def gen(rng, k):
     else:
         pform = fform                                      # must be the same form to match
     t = fform or treal                                     # name used in code
-    patch = tmpl.format(T=tpath, TS=spec(pform if pform != "$n" else "n", tpath), t=t, N=npath, n=nreal)
+    patch = tmpl.format(T=tpath, TS=spec(pform if pform != "$n" else "n", tpath), t=t, N=npath, n=nreal, r=treal)
     # the file
     others = rng.sample(OTHERS, rng.randint(0, 6))
     if rng.random() < 0.15:
         others.append(("dup", tpath))                      # the target path a second time under another name
     if rng.random() < 0.1 and npath:
-        others.append((None, npath) if rng.random() < 0.5 else ("already", npath))   # the '+' import is there already
+        others.append((rng.choice([None, "already", "_", "."]), npath))   # the '+' import is there already
     has_target = roles != [] or rng.random() < 0.3
     imps = list(others)
     if has_target:
@@ -66,7 +67,10 @@ def gen(rng, k):
     else:
         body.append("func a() { %s.F(1); _ = %s.F(q) }" % (t, t))
         if remaining:
-            body.append("func keep() { var v %s.Type; %s.Other(v) }" % (t, t))
+            forms = ["var v %s.Type", "%s.Other(1)", "_ = %s.Default().Timeout", "%s.Registry.Hooks.Run()", "_ = []%s.Item{}",
+                     "_ = %s.Table[0].Name", "defer %s.Pool.Get().Close()", "_ = func(a %s.Arg) {}"]
+            picked = rng.sample(forms, rng.choice([1, 1, 2, 3]))
+            body.append("func keep() { %s }" % "; ".join(f % t for f in picked))
     for n, p in others:
         key = n if n not in (None, "_", ".") else p.rsplit("/", 1)[-1]
         if key in USES and rng.random() < 0.7:
@@ -128,9 +132,9 @@ def judge(c, o):
     mentioned = set()
     if c["roles"]:
         mentioned.add(c["target"][1])
-    if c["kind"] not in ("delete", "match-only"):
+    if c["kind"] not in ("delete", "match-only", "metavar-unalias"):
         mentioned.add(c["new"][0])
-    if c["kind"] in ("rename",):
+    if c["kind"] in ("rename", "metavar-unalias"):
         mentioned.add(c["target"][1])
     bad = []
     for (n, p), cnt in I.items():
@@ -141,8 +145,8 @@ def judge(c, o):
             bad.append(("import %s, which the patch does not mention, was added" % spec(n, p), None))
     # '+' imports
     if c["kind"] in ("add", "replace", "replace-all-selectors", "metavar-match-add"):
-        if not any(p == c["new"][0] for (n, p) in O):
-            bad.append(("the '+' import \"%s\" is missing from the output" % c["new"][0], None))
+        if (None, c["new"][0]) not in O:
+            bad.append(("the '+' import \"%s\" (unnamed) is missing from the output" % c["new"][0], None))
     if c["kind"] == "add-named" and ("nn", c["new"][0]) not in O:
         bad.append(("the '+' import nn \"%s\" is missing from the output" % c["new"][0], None))
     if c["kind"] == "rename" and ("renamed", c["target"][1]) not in O:
@@ -151,6 +155,8 @@ def judge(c, o):
         want = (c["target"][0], c["new"][0])       # under the captured name (none if the matched import was unnamed)
         if want not in O:
             bad.append(("the '+' import %s (name captured by the metavariable) is missing from the output" % spec(*want), None))
+    if c["kind"] == "metavar-unalias" and (None, c["target"][1]) not in O:
+        bad.append(("the '+' import \"%s\" (unnamed) is missing from the output" % c["target"][1], None))
     if c["kind"] == "same-name-takeover" and (c["t"], c["new"][0]) not in O:
         bad.append(("the '+' import %s is missing from the output" % spec(c["t"], c["new"][0]), None))
     # matched imports
@@ -159,12 +165,13 @@ def judge(c, o):
         key = (fform, tpath)
         name = fform or treal
         still = uses_name(out, name)
-        taken = c["kind"] == "same-name-takeover" or (c["kind"] == "metavar-replace")    # the '+' import takes the name over
+        taken = c["kind"] == "same-name-takeover" or (c["kind"] == "metavar-replace") or \
+            (c["kind"] == "metavar-unalias" and (fform is None or name == tpath.rsplit("/", 1)[-1]))    # the '+' import takes the name over
         base_differs = fform is None and tpath.rsplit("/", 1)[-1] != treal
         if still and not taken and O[key] < I[key]:
             bad.append(("the matched import %s was deleted although the rewritten file still refers to %s" % (spec(*key), name),
                         "unnamed-import-base-guess" if base_differs else None))
-        if not still and c["roles"][0].startswith("minus") and O[key] >= I[key] and c["kind"] != "rename":
+        if not still and c["roles"][0].startswith("minus") and O[key] >= I[key] and c["kind"] != "rename" and not (c["kind"] == "metavar-unalias" and fform is None):
             bad.append(("the import %s on a '-' line is still there although nothing refers to %s any more" % (spec(*key), name), None))
     return bad
 
